@@ -1,19 +1,89 @@
 /-
 Line-protocol engine for C05 (transactions all-or-nothing and isolated): the shared store engine
 (CV.Engine.StoreCore: `txn <idx> <ops>` = TxnRW, dumps, reads) plus
-  txnro <op,op,…>        a read-only transaction (`Store.TxnRO`), same op syntax as `txn`
+  txnro <op,op,…>                         a read-only transaction (`Store.TxnRO`), same op syntax as `txn`
+  authz <tok> <kr> <kw> <kwp> <nr> <nw> <sr> <sw> <xw>
+                                          the answers of token <tok>'s authorizer: the names (lists) for which
+                                          KeyRead / KeyWrite / KeyWritePrefix / NodeRead / NodeWrite / ServiceRead /
+                                          ServiceWrite / SessionWrite are allowed (everything else is denied)
+  tapply <idx> <tok> <ops>                `Txn.Apply` (pre-check, Raft entry at <idx> if it gets that far, filter)
+  tread <tok> <ops>                       `Txn.Read`
+  http <idx> <tok> <ops>                  `HTTPHandlers.Txn` after decoding (routing by write count, op limit)
 -/
 import CV.Engine.StoreCore
+import CV.Store.TxnEndpoint
 namespace CV.Engine.C05
 open CV CV.Store CV.Engine.StoreCore
 
-def step (s : Store.State) (toks : List String) : Store.State × String :=
+/-- the allowed names per permission -/
+structure AuthzTab where
+  kr : List Key
+  kw : List Key
+  kwp : List Key
+  nr : List String
+  nw : List String
+  sr : List String
+  sw : List String
+  xw : List String
+
+def AuthzTab.authz (t : AuthzTab) : Authz :=
+  ⟨t.kr.contains, t.kw.contains, t.kwp.contains, t.nr.contains, t.nw.contains, t.sr.contains, t.sw.contains,
+   t.xw.contains⟩
+
+structure St where
+  store : Store.State
+  toks : List (String × AuthzTab)
+
+def showEpErrs (es : List (Nat × EpErr)) : String :=
+  encList (es.map fun (i, e) => encNat i ++ ":" ++ (match e with | .pre p => p.name | .st x => x.name))
+
+def showApply (o : ApplyOut) : String :=
+  match o.errors with
+  | [] => "ok:" ++ encList (o.results.map showTxnRes)
+  | es => (if o.raft then "errs:" else "pre:") ++ showEpErrs es
+
+def showRead (rs : List TxnRes) (es : List (Nat × EpErr)) (filtered : Bool) : String :=
+  match es with
+  | [] => "ok:" ++ encList (rs.map showTxnRes) ++ " filtered=" ++ encBool filtered
+  | es =>
+    (if es.any (fun p => match p.2 with | .pre _ => true | _ => false) then "pre:" else "errs:") ++ showEpErrs es
+
+def findTok (st : St) (tok : String) : Option Authz := (st.toks.find? (·.1 == tok)).map (·.2.authz)
+
+def step (st : St) (toks : List String) : St × String :=
   match toks with
+  | ["reset"] => (⟨Store.State.empty, []⟩, "ok")
   | ["txnro", ops] =>
     match (decList ops).mapM parseTxnOp with
-    | some l => let (rs, es) := txnRO s l; (s, showResult (.txn rs es))
-    | none => (s, "bad-op")
-  | _ => StoreCore.step s toks
+    | some l => let (rs, es) := txnRO st.store l; (st, showResult (.txn rs es))
+    | none => (st, "bad-op")
+  | ["authz", tok, kr, kw, kwp, nr, nw, sr, sw, xw] =>
+    match (do
+      let t : AuthzTab := ⟨← (decList kr).mapM decB, ← (decList kw).mapM decB, ← (decList kwp).mapM decB,
+        ← (decList nr).mapM decS, ← (decList nw).mapM decS, ← (decList sr).mapM decS, ← (decList sw).mapM decS,
+        ← (decList xw).mapM decS⟩
+      pure t : Option AuthzTab) with
+    | some t => ({ st with toks := (tok, t) :: st.toks.filter (·.1 != tok) }, "ok")
+    | none => (st, "bad-op")
+  | ["tapply", idx, tok, ops] =>
+    match idx.toNat?, findTok st tok, (decList ops).mapM parseTxnOp with
+    | some i, some a, some l =>
+      let o := txnApply a st.store i l
+      ({ st with store := o.state }, showApply o)
+    | _, _, _ => (st, "bad-op")
+  | ["tread", tok, ops] =>
+    match findTok st tok, (decList ops).mapM parseTxnOp with
+    | some a, some l => let r := txnRead a st.store l; (st, showRead r.1 r.2.1 r.2.2)
+    | _, _ => (st, "bad-op")
+  | ["http", idx, tok, ops] =>
+    match idx.toNat?, findTok st tok, (decList ops).mapM parseTxnOp with
+    | some i, some a, some l =>
+      match httpTxn a st.store i l with
+      | .tooMany => (st, "too-many")
+      | .read rs es f => (st, "read:" ++ showRead rs es f)
+      | .apply o => ({ st with store := o.state }, "apply:" ++ showApply o)
+    | _, _, _ => (st, "bad-op")
+  | _ => let (s', out) := StoreCore.step st.store toks; ({ st with store := s' }, out)
 
-def engine : Engine := { State := Store.State, init := Store.State.empty, step := step }
+def engine : Engine := { State := St, init := ⟨Store.State.empty, []⟩, step := step }
 end CV.Engine.C05
